@@ -62,15 +62,18 @@ Open Scope string_scope.
   Fixpoint map2 {A B C} (f : A -> B -> C) (l : list A) (m : list B) : list C :=
     match l, m with a :: l', b :: m' => f a b :: map2 f l' m' | _, _ => [] end.
 
-  (* the property's domain, decided by the entry itself on the arguments: Some false = inside; Some true = some altitude is finite but
-     outside +-2^25 m (case skipped, never scored); None = not valid points (NaN / infinite coordinate, lon / lat out of range) *)
-  Definition worst_zone (zs : list alt_zone) : option bool :=
-    if existsb (fun z => match z with ZNone => true | _ => false end) zs then None
-    else Some (existsb (fun z => match z with ZBeyond => true | _ => false end) zs).
-  Definition gate_points (ps : list point) : option bool :=
-    if forallb (fun p => lonlat_valid (plon p) (plat p)) ps then worst_zone (map (fun p => alt_zone_of (palt p)) ps) else None.
-  Definition gate_ppoints (qs : list ppoint) : option bool :=
-    if forallb (fun q => is_some (fq (px q)) && is_some (fq (py q))) qs then worst_zone (map (fun q => alt_zone_of (pz q)) qs) else None.
+  (* the property's domain, decided by the entry itself on the arguments. Every entry is TOTAL on well-formed wire values:
+     - what the wrapper model decides for any floats whatsoever (unknown code => conversion error; the wrapper contract against the
+       library's own answers: order, altitude bits, error flag and code) is judged on every input, valid or not;
+     - the numeric claims and "no error on EPSG:3857" are made for valid points only (finite, |lon| <= 180, |lat| <= limit, |alt| <= 2^25 m);
+     - a case with a FINITE altitude beyond +-2^25 m under a known code, and a round trip of a point that is not valid, are answered
+       `skipped` (the entry itself confirmed why): neither an evaluation nor a pass. *)
+  Definition zone_beyond (z : alt_zone) : bool := match z with ZBeyond => true | _ => false end.
+  Definition beyond_points (ps : list point) : bool := existsb (fun p => zone_beyond (alt_zone_of (palt p))) ps.
+  Definition beyond_ppoints (qs : list ppoint) : bool := existsb (fun q => zone_beyond (alt_zone_of (pz q))) qs.
+  Definition valid_points (ps : list point) : bool :=
+    forallb (fun p => lonlat_valid (plon p) (plat p) &&
+                      match alt_zone_of (palt p) with ZIn | ZDeep => true | _ => false end) ps.
   Definition skipped_case : verdict := mkv true true "skipped" VNil.
 
   Section WithOracle.
@@ -135,15 +138,17 @@ Open Scope string_scope.
       | [pl; VZ crs] =>
           match dec_list as_gpoint pl, obs_list as_ppoint obs with
           | Some ps, Some o =>
-              match gate_points ps with None => bad_case | Some true => skipped_case | Some false =>
               let m := to_projected epsg_known tr ps crs in
               let corr := corr_res ppoint_eqb m o in
               let '(ol, ok) := o in
               let oe := is_some ok in
               if negb (epsg_known crs) then
-                (* an unknown EPSG code is reported as a conversion error - for every list, the empty one included *)
+                (* an unknown EPSG code is reported as a conversion error - for every list (the empty one included) of any points
+                   whatsoever: the coordinates do not matter *)
                 mkv corr (oe && conv_kind_ok ok) "-" (res_val of_ppoint m)
+              else if beyond_points ps then skipped_case
               else
+                let valid := valid_points ps in
                 (* error exactly when the transform refuses a point; without error, element i is the transform of point i (order) with
                    point i's altitude bit for bit. The transform may be asked at the point's height (as the code does today) or at height 0
                    (the repair of alt_fed_to_datum): the property does not say which. *)
@@ -151,14 +156,13 @@ Open Scope string_scope.
                   err_agrees oe (fun h => existsb (fun p => is_none (tr geo_crs crs (plon p) (plat p) (h (palt p)))) ps) &&
                   (if oe then true else forall2b (fwd_elem_ok crs) ps ol) in
                 (* EPSG:3857 is defined on every valid point: no error expected there *)
-                let total := negb ((crs =? orth_crs)%Z && oe) in
+                let total := negb (valid && (crs =? orth_crs)%Z && oe) in
                 let st := if negb total then fwd_refusal_stat ps
-                          else if (crs =? orth_crs)%Z && negb oe && structural then worst (map2 fwd_stat ps ol) else POk in
+                          else if valid && (crs =? orth_crs)%Z && negb oe && structural then worst (map2 fwd_stat ps ol) else POk in
                 let numeric := match st with POk => true | _ => false end in
                 let prop := structural && numeric && total && conv_kind_ok ok in
                 let cls := if corr && structural && conv_kind_ok ok then match st with PAlt => "alt_fed_to_datum" | _ => "-" end else "-" in
                 mkv corr prop cls (res_val of_ppoint m)
-              end
           | _, _ => bad_case
           end
       | _ => bad_case
@@ -176,12 +180,12 @@ Open Scope string_scope.
       | [pl; VZ crs] =>
           match dec_list as_ppoint pl, obs_list as_gpoint obs with
           | Some qs, Some o =>
-              match gate_ppoints qs with None => bad_case | Some true => skipped_case | Some false =>
               let m := to_geographic epsg_known tr qs crs in
               let corr := corr_res point_eqb m o in
               let '(ol, ok) := o in
               let oe := is_some ok in
               if negb (epsg_known crs) then mkv corr (oe && conv_kind_ok ok) "-" (res_val of_gpoint m)
+              else if beyond_ppoints qs then skipped_case
               else
                 (* error exactly when some point is refused (by the transform or by NewPoint); without error: element i is
                    NewPoint(transform of point i) - order - and carries point i's altitude bit for bit *)
@@ -190,7 +194,6 @@ Open Scope string_scope.
                   (if oe then true else forall2b (back_elem_ok crs) qs ol) in
                 let alts := if oe then true else forall2b (fun q g => feqb_bits (palt g) (pz q)) qs ol in
                 mkv corr (order && alts && conv_kind_ok ok) "-" (res_val of_gpoint m)
-              end
           | _, _ => bad_case
           end
       | _ => bad_case
@@ -218,7 +221,8 @@ Open Scope string_scope.
       | [pl], VL [VZ cg; VZ co; fo; bo] =>
           match dec_list as_gpoint pl, obs_list as_ppoint fo, obs_list as_gpoint bo with
           | Some ps, Some f, Some b =>
-              match gate_points ps with None => bad_case | Some true => skipped_case | Some false =>
+              (* the round-trip claim is made for valid points only *)
+              if negb (valid_points ps) then skipped_case else
               let m := round_trip epsg_known tr ps orth_crs in
               let consts_ok := (cg =? geo_crs)%Z && (co =? orth_crs)%Z in
               let corr := consts_ok && corr_res ppoint_eqb (fst m) f && corr_res point_eqb (snd m) b in
@@ -233,7 +237,6 @@ Open Scope string_scope.
               let prop := shape && match st with POk => true | _ => false end in
               let cls := if corr && consts_ok then match st with PAlt => "alt_fed_to_datum" | _ => "-" end else "-" in
               mkv corr prop cls (VL [VZ geo_crs; VZ orth_crs; res_val of_ppoint (fst m); res_val of_gpoint (snd m)])
-              end
           | _, _, _ => bad_case
           end
       | _, _ => bad_case
